@@ -1,4 +1,5 @@
 import Vore.Lemmas.LexItems
+import Vore.Model.LexSource
 /-!
 # C15 (lexer half) — whitespace, comments and keyword case never change the token stream
 
@@ -277,6 +278,39 @@ theorem C15_case (items items' : List Item) (h : CaseVars items items') (hw : We
 theorem word_ok (l : UInt8) (ws : Bytes) (hl : isLetterB l = true) (hws : ∀ c ∈ ws, isAlnumB c = true) :
     (Item.word (l :: ws)).ok := ⟨l, ws, rfl, hl, hws⟩
 
+
+/-! ## every source, not only ASCII ones
+
+The lexer on an arbitrary byte string is `lexSource src = lex (abstractSource src)` (Model/LexSource.lean): the runes
+`ReadRune` delivers, each non-ASCII rune replaced by the byte of its class (Unicode white space ↦ a blank byte, letters,
+digits, the two runes that lower-case into ASCII, everything else).  The layout theorems therefore hold for every
+source whose class image is a rendering of well-separated items — in particular for sources that use U+00A0, U+2003,
+U+3000 … between tokens, which the Go lexer accepts as white space. -/
+
+/-- **C15, layout independence (lexer), all sources.**  Two byte strings — any encoding, any Unicode white space —
+whose class images are well-separated item lists with the same significant items have the same significant tokens. -/
+theorem C15_layout_all_sources (s1 s2 : Bytes) (a b : List Item)
+    (h1 : Unicode.abstractSource s1 = renderItems a) (h2 : Unicode.abstractSource s2 = renderItems b)
+    (ha : WellSep [] a) (hb : WellSep [] b)
+    (h : a.filter (fun it => !it.insignificant) = b.filter (fun it => !it.insignificant)) :
+    significant (lexSource s1) = significant (lexSource s2) := by
+  unfold lexSource
+  rw [h1, h2]
+  exact C15_layout a b ha hb h
+
+/-- **C15, gap insertion (lexer), all sources** -/
+theorem C15_lexer_gap_all_sources (s1 s2 : Bytes) (items1 gap items2 : List Item)
+    (h1 : Unicode.abstractSource s1 = renderItems (items1 ++ gap ++ items2))
+    (h2 : Unicode.abstractSource s2 = renderItems (items1 ++ items2))
+    (hins : ∀ g ∈ gap, g.insignificant = true)
+    (h0 : WellSep [] (items1 ++ items2))
+    (hgap : WellSep (renderItems items2) gap)
+    (hleft : WellSep (renderItems gap ++ renderItems items2) items1) :
+    significant (lexSource s1) = significant (lexSource s2) := by
+  unfold lexSource
+  rw [h1, h2]
+  exact C15_lexer_gap items1 gap items2 hins h0 hgap hleft
+
 /-- `a(` ++ gap ++ `b` with gap = blank, block comment, line comment, newline:
 `a( --(c)----x⏎b` has the significant tokens of `a(b` -/
 example :
@@ -294,6 +328,22 @@ example :
   · exact ⟨word_ok 97 [] (by decide) (by simp), by simp [Item.sep, renderItems, Item.render]; decide,
       by simp [Item.ok]; decide, trivial, trivial⟩
 
+section
+set_option maxRecDepth 100000
+
+/-- non-vacuity of the all-sources form: `a` U+00A0 `b` (bytes 61 C2 A0 62; a no-break space is white space to the Go
+lexer) has the significant tokens of `a b` -/
+example : significant (lexSource [97, 0xC2, 0xA0, 98]) = significant (lexSource [97, 32, 98]) := by
+  apply C15_layout_all_sources _ _ [.word [97], .blank [0x83], .word [98]] [.word [97], .blank [32], .word [98]]
+  · decide
+  · decide
+  · refine ⟨word_ok 97 [] (by decide) (by simp), ?_, ?_, ?_, word_ok 98 [] (by decide) (by simp), ?_, trivial⟩ <;>
+      simp [Item.sep, Item.ok, renderItems, Item.render] <;> decide
+  · refine ⟨word_ok 97 [] (by decide) (by simp), ?_, ?_, ?_, word_ok 98 [] (by decide) (by simp), ?_, trivial⟩ <;>
+      simp [Item.sep, Item.ok, renderItems, Item.render] <;> decide
+  · rfl
+end
+
 /-- `find` / `FIND`: the same kind -/
 example : kwLookup [70, 73, 78, 68] = .find ∧ kwLookup [102, 105, 110, 100] = .find := by decide
 
@@ -306,4 +356,6 @@ end Vore.Lex
 #print axioms Vore.Lex.C15_lexer_gap
 #print axioms Vore.Lex.C15_case
 #print axioms Vore.Lex.C15_layout
+#print axioms Vore.Lex.C15_layout_all_sources
+#print axioms Vore.Lex.C15_lexer_gap_all_sources
 #print axioms Vore.Lex.wellSep_caseVar
